@@ -294,7 +294,7 @@ def check_exec(obs) -> list[tuple[str, str]]:
         for j in range(1, len(ss)):
             if not any(f < ss[j][0] for f in fails.get(m, [])):
                 earlier = ",".join(x[2] for x in ss[:j])
-                out.append((f"C27:duplicate-without-failed-attempt:{kinds[m]}:earlier-{earlier}",
+                out.append((f"C27:duplicate-without-failed-attempt:earlier-{earlier}",
                             f"{name(m)} was put on the wire again (attempt {ss[j][1]}) although no earlier attempt had failed "
                             f"(earlier attempts: {earlier})"))
                 break
@@ -516,8 +516,18 @@ def first_level(scn):
     return obs, items
 
 
+def _vec(dev: dict) -> list:
+    v = [0] * (max(dev) + 1)
+    for i, c in dev.items():
+        v[i] = c
+    return v
+
+
 def DETERMINISM_ITEMS(scns):
-    return [(scns[0], []), (scns[5], [0, 1]), (scns[2], [0, 0, 1, 1])]
+    by = {s["name"]: s for s in scns}
+    # three schedules that exercise the racy paths (leaked buffering loop, concurrent failures after a reconnect, lost ack in a batch)
+    return [(by["idle/k0"], _vec({0: 1, 1: 2})), (by["run:tag@D,stop@X/k0"], _vec({23: 2, 26: 2})),
+            (by["run:tag@D,stop@D/k0"], _vec({0: 1, 24: 3}))]
 
 
 def run(ctx):
@@ -559,7 +569,9 @@ def run(ctx):
         rule="states = distinct executions (scenario x deviation vector), each one a run of the real EngineRunner; transitions = "
              "scheduling decisions with at least one alternative; non-trivial = executions in which an engine event was delivered "
              "while the link was down",
-        samples=[{"scenario": s["name"], "plan": s["plan"], "outage_s": s["outage"], "backoff_s": s["backoff"]} for s in scns[:4]],
+        samples=[{"scenario": s["name"], "plan": s["plan"], "outage_s": s["outage"], "backoff_s": s["backoff"], "choices": c}
+                 for s, c in DETERMINISM_ITEMS(scns)] +
+                [{"scenario": s["name"], "plan": s["plan"], "outage_s": s["outage"], "backoff_s": s["backoff"], "choices": []} for s in scns[3:6]],
         scenarios=base, deviation_bound=max(s["bound"] for s in scns), deviation_bound_completed=True,
         quiescent_points=tot["points"], loop_steps=tot["steps"],
         executions_with_two_outages=tot["two_episodes"], executions_with_failed_attempt=tot["with_failed_attempt"],
